@@ -340,24 +340,45 @@ def ast_obligations(repo='/repo'):
                     if isinstance(t, ast.Attribute):
                         assigned.add(t.attr)
         literal = all(n in assigned for n in FROZEN_NAMES)
-    how = 'AST: G.%s = frozen'
+    how = {n: 'AST: G.%s = frozen' % n for n in FROZEN_NAMES}
     if not literal:
-        # freeze() is not a list of literal assignments (e.g. a loop over names): decide by running it on fresh graphs of both
-        # classes and looking at what the names are bound to afterwards (finite, exhaustive over the listed names)
+        # freeze() is not a list of literal assignments (a loop over names, a guard moved into the class, ...): decide by running it
+        # on graphs of both classes: a name counts when it is bound to frozen() afterwards, or - the guard may live elsewhere - when a
+        # representative call raises NetworkXError and leaves the graph as it was (said so in the detail: this is by execution)
         import dynetx as dn
+        import networkx as nx
         from dynetx.classes import function as fmod
+        ARGS = {'add_node': (9,), 'add_nodes_from': ([9],), 'remove_node': (1,), 'remove_nodes_from': ([1],), 'add_edge': (1, 9),
+                'add_edges_from': ([(1, 9)],), 'remove_edge': (1, 2), 'remove_edges_from': ([(1, 2)],), 'clear': (), 'clear_edges': ()}
         assigned = set(FROZEN_NAMES)
-        for cls in (dn.DynGraph, dn.DynDiGraph):
-            G = cls()
-            fmod.freeze(G)
-            for n in FROZEN_NAMES:
-                if getattr(G, n, None) is not fmod.frozen:
+        for n in FROZEN_NAMES:
+            modes = []
+            for cls in (dn.DynGraph, dn.DynDiGraph):
+                G = cls()
+                G.add_interaction(1, 2, 0, 3)
+                fmod.freeze(G)
+                if getattr(G, n, None) is fmod.frozen:
+                    modes.append('bound to frozen()')
+                    continue
+                dump = lambda: (sorted(G.nodes()), repr(sorted(G._adj.items() if not G.is_directed() else G._succ.items())), sorted(G.snapshots.items()), sorted(G.time_to_edge))
+                before = dump()
+                try:
+                    getattr(G, n)(*ARGS[n])
+                    raised = False
+                except nx.NetworkXError:
+                    raised = True
+                except Exception:
+                    raised = False
+                if raised and dump() == before:
+                    modes.append('G.%s%r raises NetworkXError on the frozen %s and changes nothing' % (n, ARGS[n], cls.__name__))
+                else:
                     assigned.discard(n)
-        how = 'by execution of freeze() on fresh graphs of both classes: G.%s is frozen'
+                    modes.append('G.%s%r on a frozen %s: %s' % (n, ARGS[n], cls.__name__, 'raised, but the graph changed' if raised else 'did not raise NetworkXError'))
+            how[n] = 'by execution of freeze() on graphs of both classes: ' + '; '.join(modes)
     src_fz = ast.unparse(fz) if fz is not None else ''
     obs.append({'name': 'C19.freeze.sets_frozen_flag', 'ok': 'frozen = True' in src_fz.replace("'frozen', True", 'frozen = True'), 'detail': 'G.frozen = True'})
     for n in FROZEN_NAMES:
-        obs.append({'name': 'C19.freeze.rebinds.%s' % n, 'ok': n in assigned, 'detail': how % n})
+        obs.append({'name': 'C19.freeze.rebinds.%s' % n, 'ok': n in assigned, 'detail': how[n]})
     isf = funcs.get('is_frozen')
     obs.append({'name': 'C19.is_frozen.reads_flag', 'ok': isf is not None and 'G.frozen' in ast.unparse(isf), 'detail': ast.unparse(isf)[:120] if isf else ''})
     return obs
